@@ -70,3 +70,19 @@ package websocket
 //@   ensures [header] forall k :: 0 <= k && k < 2 + ext ==> (*f)[k] == old((*f)[k])
 //@   ensures [masked] forall k :: 0 <= k && k < len(*f) - off ==> (*f)[off + k] == old((*f)[off + k]) ^ (*f)[off - 4 + (k & 3)]
 //@   modifies mem(*f)
+
+//@ globalinv zeroBytes: [C16] forall k :: 0 <= k && k < 14 ==> zeroBytes[k] == 0
+
+//@ func NewFrame
+//@   prop C16
+//@   ensures [fresh] len(result) == 14 && heapslice(result) && cap(result) <= 1<<46 &&
+//@           (forall k :: 0 <= k && k < 14 ==> result[k] == 0)
+
+// Frame.WriteTo hands the writer exactly the frame's bytes, in order, until all are written.
+//@ func (Frame).WriteTo
+//@   prop C16
+//@   requires w != nil
+//@   loop 1 invariant 0 <= written && written <= len(f)
+//@   loop 1 decreases len(f) - written
+//@   assert call io.Writer.Write: alias(arg1, f[written:])
+//@   ensures [all] result1 == nil ==> int(result0) == len(f)
